@@ -99,3 +99,86 @@ Qed.
 
 Lemma forallb_is_byte_repeat0 k : forallb is_byte (repeat 0 k) = true.
 Proof. induction k as [|k IH]; cbn; auto. Qed.
+
+(* ------------------------------------------------------------------ items, slices, 2-D stores *)
+(* The module matrix of segno is a tuple of bytearrays that is mutated in place (`matrix[i][j] = v`,
+   `matrix[i][a:b] = seq`, `row = matrix[i]; row[j] = v`).  Functionally: a list of rows (list Z); every
+   mutation yields the new matrix.  Negative indices wrap around as in Python, indices out of range raise
+   IndexError, values outside range(256) raise ValueError (the value is checked before the index). *)
+Definition py_norm_index (len i : Z) : res Z :=
+  let k := if i <? 0 then i + len else i in
+  if (0 <=? k) && (k <? len) then Ok k else Err IndexErr.
+
+Fixpoint upd_nat {A} (l : list A) (k : nat) (x : A) : list A :=
+  match l, k with
+  | [], _ => []
+  | _ :: r, O => x :: r
+  | y :: r, S k' => y :: upd_nat r k' x
+  end.
+
+(* seq[i] = v for a bytearray *)
+Definition py_set_item (l : list Z) (i v : Z) : res (list Z) :=
+  if is_byte v then do k <- py_norm_index (lenZ l) i; Ok (upd_nat l (Z.to_nat k) v) else Err ValueError.
+
+(* row = matrix[i]: the (normalised) index of the row the name refers to *)
+Definition py_row_index {A} (m : list A) (i : Z) : res Z := py_norm_index (lenZ m) i.
+
+Definition py_get2 (m : list (list Z)) (i j : Z) : res Z := do row <- py_index m i; py_index row j.
+
+Definition py_set2 (m : list (list Z)) (i j v : Z) : res (list (list Z)) :=
+  do k <- py_row_index m i;
+  do row <- nthZ m k;
+  do row' <- py_set_item row j v;
+  Ok (upd_nat m (Z.to_nat k) row').
+
+(* slice bounds are clipped, never an error *)
+Definition py_clip (len k : Z) : Z := if k <? 0 then Z.max 0 (k + len) else Z.min k len.
+Definition py_slice {A} (l : list A) (a b : Z) : list A :=
+  let a' := py_clip (lenZ l) a in
+  let b' := py_clip (lenZ l) b in
+  firstn (Z.to_nat (b' - a')) (skipn (Z.to_nat a') l).
+(* bytearray[a:b] = seq (may change the length) *)
+Definition py_set_slice (l : list Z) (a b : Z) (vals : list Z) : res (list Z) :=
+  if forallb is_byte vals then
+    let a' := py_clip (lenZ l) a in
+    let b' := py_clip (lenZ l) b in
+    Ok (firstn (Z.to_nat a') l ++ vals ++ skipn (Z.to_nat (Z.max a' b')) l)
+  else Err ValueError.
+Definition py_set_slice2 (m : list (list Z)) (i a b : Z) (vals : list Z) : res (list (list Z)) :=
+  do k <- py_row_index m i;
+  do row <- nthZ m k;
+  do row' <- py_set_slice row a b vals;
+  Ok (upd_nat m (Z.to_nat k) row').
+
+(* bytearray(iterable of ints) *)
+Definition py_bytearray (l : list Z) : res (list Z) := if forallb is_byte l then Ok l else Err ValueError.
+
+(* a, b = seq   /   a, b, c = seq *)
+Definition py_unpack2 {A} (l : list A) : res (A * A) :=
+  match l with [a; b] => Ok (a, b) | _ => Err ValueError end.
+Definition py_unpack3 {A} (l : list A) : res (A * A * A) :=
+  match l with [a; b; c] => Ok (a, b, c) | _ => Err ValueError end.
+
+(* itertools.product(seq, repeat=2) *)
+Definition py_product2 {A} (l : list A) : list (list A) := flat_map (fun x => map (fun y => [x; y]) l) l.
+
+(* tuple of ints `in` tuple of tuples *)
+Fixpoint py_list_eqb (a b : list Z) : bool :=
+  match a, b with
+  | [], [] => true
+  | x :: a', y :: b' => (x =? y) && py_list_eqb a' b'
+  | _, _ => false
+  end.
+Definition py_mem_list (x : list Z) (l : list (list Z)) : bool := existsb (py_list_eqb x) l.
+
+(* x >> n, x << n: a negative shift count raises ValueError *)
+Definition py_shiftr (x n : Z) : res Z := if n <? 0 then Err ValueError else Ok (Z.shiftr x n).
+Definition py_shiftl (x n : Z) : res Z := if n <? 0 then Err ValueError else Ok (Z.shiftl x n).
+
+(* range(a, b, step) for step <> 0 *)
+Fixpoint py_range_aux (n : nat) (a step : Z) : list Z :=
+  match n with O => [] | S k => a :: py_range_aux k (a + step) step end.
+Definition py_range3 (a b step : Z) : res (list Z) :=
+  if step =? 0 then Err ValueError
+  else if 0 <? step then Ok (py_range_aux (Z.to_nat ((b - a + step - 1) / step)) a step)
+  else Ok (py_range_aux (Z.to_nat ((a - b - step - 1) / (- step))) a step).
